@@ -145,7 +145,13 @@ def unsupplied_junctions(net, mg=None, slacks=None, respect_valves=True):
 
     mg = mg or create_nxgraph(net, respect_status_valves=respect_valves)
     if slacks is None:
-        slacks = set(net.ext_grid[net.ext_grid.in_service].junction.values)
+        slacks = set()
+        if "ext_grid" in net and len(net.ext_grid):
+            slacks |= set(net.ext_grid[net.ext_grid.in_service].junction.values)
+        # circulation pumps fix the pressure at their flow junction and supply the net as well
+        for circ_pump in ("circ_pump_pressure", "circ_pump_mass"):
+            if circ_pump in net and len(net[circ_pump]):
+                slacks |= set(net[circ_pump][net[circ_pump].in_service].flow_junction.values)
     not_supplied = set()
     for cc in nx.connected_components(mg):
         if not set(cc) & slacks:
